@@ -361,6 +361,13 @@ def random_history(rng, src, length, kinds):
                 op['path'] = path_of(soup, c)
                 if k == 'replace':
                     op['ms'] = rng.choice(mats)
+        if op['path'] is None or op['ppath'] is None:
+            # a view handed out a node that is not (any more) in the tree: the views are not consistent with the tree
+            if h:
+                h[-1]['cons'] = sorted(set(h[-1]['cons'] + ['view-hands-out-node-not-in-tree']))
+            else:
+                return {'i': to_atoms(src), 'h': [], 'stale': True}
+            break
         err = apply_op(soup, op)
         o = observe(soup) if not err else {'t': to_atoms('<' + err + '>'), 'cnt': [], 'tv': [], 'ds': []}
         h.append({'op': op, 't': o['t'], 'cnt': o['cnt'], 'tv': o['tv'], 'ds': o['ds'], 'err': err, 'cons': consistency(soup) if not err else []})
